@@ -3,11 +3,11 @@
    (checks/c14.py); the model has no such parameter.  What is proved: the model's statement of scheduler independence
    (the per-row fan-out is a fold whose result multiset is invariant under permutation of the work list), and the
    invariances of the specification (clause order, data partitioning, monotonicity).
-   OPEN (design-notes/C14.md): renaming invariance; transfer of clause-order invariance to the model (needs the C03
-   composition theorem). *)
+   and their transfer to the planner model on D3 (corollaries of the C03 composition theorem).
+   OPEN (design-notes/C14.md): renaming invariance is checked by the correspondence only. *)
 From Coq Require Import List ZArith NArith Bool Permutation.
 Import ListNotations.
-From BWPlanner Require Import Terms Rows Clause Store Fetch Plan PatternSpec Current Corr Witnesses RowsProofs FetchProofs PlanProofs SpecProofs.
+From BWPlanner Require Import Terms Rows Clause Store Fetch Plan PatternSpec Current Domain Corr Witnesses RowsProofs FetchProofs PlanProofs SpecProofs Compose Compose2 Compose3.
 
 (* ---- scheduler independence, as far as the model can state it: specifyClauseWithTable starts one addSpecifiedData per row
    and appends in completion order; whatever the completion order, the table holds the same multiset of rows ... *)
@@ -54,6 +54,46 @@ Theorem C14_monotone_reference :
     In r (spec_solutions glo gs cs) -> In r (spec_solutions glo gs' cs).
 Proof. exact spec_solutions_monotone. Qed.
 Print Assumptions C14_monotone_reference.
+
+(* ---- transferred to the PLANNER MODEL on D3 (C03 composition): whenever two (pattern, data) pairs in D3 have the same
+   solutions, each row returned for the first is matched by a row returned for the second that agrees with it on all its
+   bindings (values up to the zone of an instant) ... *)
+Theorem C14_model_clause_order :
+  forall e gs glo cs cs' outs t, Permutation cs cs' ->
+    D3 e gs cs outs = true -> D3 e gs cs' outs = true ->
+    process_pattern e gs glo cs empty_table = Ok t ->
+    exists t', process_pattern e gs glo cs' empty_table = Ok t' /\
+               forall r, In r (trows t) -> exists r', In r' (trows t') /\ sub_equiv r' r /\ is_solution cs' glo gs r'.
+Proof.
+  intros e gs glo cs cs' outs t HP H H' Et. apply (model_transfer e gs gs glo cs cs' outs outs t H H'); [|exact Et].
+  intros mu Hs. apply (is_solution_clause_order cs cs' glo gs mu HP). exact Hs.
+Qed.
+Print Assumptions C14_model_clause_order.
+
+Theorem C14_model_partition :
+  forall e gs gs' glo cs outs t, same_data gs gs' ->
+    D3 e gs cs outs = true -> D3 e gs' cs outs = true ->
+    process_pattern e gs glo cs empty_table = Ok t ->
+    exists t', process_pattern e gs' glo cs empty_table = Ok t' /\
+               forall r, In r (trows t) -> exists r', In r' (trows t') /\ sub_equiv r' r /\ is_solution cs glo gs' r'.
+Proof.
+  intros e gs gs' glo cs outs t HS H H' Et. apply (model_transfer e gs gs' glo cs cs outs outs t H H'); [|exact Et].
+  intros mu Hs. apply (is_solution_partition cs glo gs gs' mu HS). exact Hs.
+Qed.
+Print Assumptions C14_model_partition.
+
+(* ... and adding triples never removes a row *)
+Theorem C14_model_monotone :
+  forall e gs gs' glo cs outs t, more_data gs gs' ->
+    D3 e gs cs outs = true -> D3 e gs' cs outs = true ->
+    process_pattern e gs glo cs empty_table = Ok t ->
+    exists t', process_pattern e gs' glo cs empty_table = Ok t' /\
+               forall r, In r (trows t) -> exists r', In r' (trows t') /\ sub_equiv r' r /\ is_solution cs glo gs' r'.
+Proof.
+  intros e gs gs' glo cs outs t HM H H' Et. apply (model_transfer e gs gs' glo cs cs outs outs t H H'); [|exact Et].
+  intros mu. apply is_solution_monotone. exact HM.
+Qed.
+Print Assumptions C14_model_monotone.
 
 (* non-vacuity: the hypotheses hold of real cases (a two-clause pattern, a two-row work list) *)
 Example C14_example :
